@@ -1040,6 +1040,13 @@ func (cs *ConsensusState) enterNewRound(height uint64, round uint32) {
 		logger.Debug(cmn.Fmt("enterNewRound(%v/%v): Invalid args. Current step: %v/%v/%v", height, round, cs.Height, cs.Round, cs.Step))
 		return
 	}
+	// The height is decided once we are in the commit step (+2/3 precommits for a block): votes of
+	// later rounds must not pull us into a new round, which would drop the part set of the
+	// committed block we are waiting for and forget the commit (nothing re-evaluates it).
+	if cs.Step == cstypes.RoundStepCommit {
+		logger.Debug(cmn.Fmt("enterNewRound(%v/%v): already in the commit step of round %v", height, round, cs.CommitRound))
+		return
+	}
 
 	if now := time.Now(); cs.StartTime.After(now) {
 		logger.Info("Need to set a buffer and log message here for sanity.", "startTime", cs.StartTime, "now", now)
@@ -1257,6 +1264,14 @@ func (cs *ConsensusState) enterPrecommit(height uint64, round uint32) {
 
 	if (cs.Height != height) || (round < cs.Round) || (cs.Round == round && cstypes.RoundStepPrecommit <= cs.Step) {
 		logger.Debug(cmn.Fmt("enterPrecommit(%v/%v): Invalid args. Current step: %v/%v/%v", height, round, cs.Height, cs.Round, cs.Step))
+		return
+	}
+	// In the commit step the height is decided (see enterNewRound): a +2/3 precommit majority of a
+	// later round (addVote calls enterNewRound, enterPrecommit, enterCommit in a row) must not take
+	// us out of it - enterNewRound has refused to move, so cs.Round is still the old round and the
+	// precommit signed below would be a second one stamped with that round.
+	if cs.Step == cstypes.RoundStepCommit {
+		logger.Debug(cmn.Fmt("enterPrecommit(%v/%v): already in the commit step of round %v", height, round, cs.CommitRound))
 		return
 	}
 
